@@ -206,14 +206,24 @@ fn main() {
             let src = std::fs::read_to_string(&f).unwrap_or_default();
             // further arguments: <module path>=<file> pairs for the host's module store
             let mut modules: std::collections::BTreeMap<String, String> = Default::default();
+            let mut answers: std::collections::BTreeMap<String, host::Answer> = Default::default();
+            let mut driver = host::Driver::Step;
             for a in args.iter().skip(5) {
-                if let Some((mp, file)) = a.split_once('=') {
+                if a == "--eval" {
+                    driver = host::Driver::Eval;
+                } else if let Some((k, v)) = a.split_once("=defer:") {
+                    answers.insert(k.to_string(), host::Answer::DeferValue(serde_json::from_str(v).unwrap_or(serde_json::Value::Null)));
+                } else if let Some((k, v)) = a.split_once("=val:") {
+                    answers.insert(k.to_string(), host::Answer::Value(serde_json::from_str(v).unwrap_or(serde_json::Value::Null)));
+                } else if let Some((k, v)) = a.split_once("=err:") {
+                    answers.insert(k.to_string(), host::Answer::Error(v.to_string()));
+                } else if let Some((mp, file)) = a.split_once('=') {
                     modules.insert(mp.to_string(), std::fs::read_to_string(file).unwrap_or_default());
                 }
             }
             let path = path.filter(|p| p != "-");
             let spec = host::RunSpec {
-                source: src, path, modules, answers: Default::default(), driver: host::Driver::Step,
+                source: src, path, modules, answers, driver,
                 gc: host::GcSched { force_at_suspend: true, ..host::GcSched::threshold(thr) },
                 tape: rng::Tape::from_vec(vec![]), fuel: 3_000_000, clock_start: 0, random_seed: 1, withhold_imports: false, linked_promises: false,
                 host_activity_pm: 0, internal_sources: Default::default(), stale_answer_ids: Vec::new(),
